@@ -1,4 +1,5 @@
 import Verif.Lemmas.KeyToLabel
+import Verif.Props.C02
 /-! # C20 — Every Docker label is addressable under a valid LogQL name
 
 Property theorems over the byte-level model `KeyToLabel.run` of `otelstorage.KeyToLabel`
@@ -137,6 +138,32 @@ theorem C20_pointwise (b : Nat) (rest : List Nat) (h : isDigit b = false) :
 "every key" excludes it -/
 theorem C20_empty : run [] = [] ∧ isValidLabel false [] = false := by
   simp [run, fast, isValidLabel]
+
+/-- **C20 (selectability, partial)**: a container carrying Docker label `k=v` is selected by
+`{sanitised(k)="v"}` — *provided* no Docker label of the same container that the runtime iterates
+later sanitises to the same name.  The hypothesis is forced by the code: at the excluded point
+(`{"a.b":"1","a-b":"2"}`) the map iteration order decides which value survives (known finding K3). -/
+theorem C20_selectable_partial (full : Regex.Re → List Nat → Bool) (inv : List Docker.Container)
+    (c : Docker.Container) (hc : c ∈ inv) (pre post : List (List Nat × List Nat)) (k v : List Nat)
+    (hl : c.labels = pre ++ (k, v) :: post)
+    (hpost : ∀ kv ∈ post, run kv.1 ≠ run k) :
+    c ∈ Docker.select full inv [⟨run k, .eq, v, .eps⟩] := by
+  rw [Docker.C02_select_iff]
+  refine ⟨hc, ?_⟩
+  intro m hm
+  simp only [List.mem_singleton] at hm
+  subst hm
+  simp [Docker.evalOp, Docker.getLabels_docker_label c pre post k v hl hpost]
+
+/-- the excluded point is real: with two colliding keys the later one hides the earlier -/
+theorem C20_collision_witness :
+    (Docker.getLabels ⟨[], [], [], [], [], [], [], [], [([97, 46, 98], [49]), ([97, 45, 98], [50])]⟩).lookup (run [97, 46, 98])
+      = some [50] := by
+  have h1 : run [97, 46, 98] = [97, 95, 98] := by
+    rw [run_eq_spec]; simp [spec, runes, decodeRune, repl, isIdent, isDigit, isAlpha]
+  have h2 : run [97, 45, 98] = [97, 95, 98] := by
+    rw [run_eq_spec]; simp [spec, runes, decodeRune, repl, isIdent, isDigit, isAlpha]
+  simp [Docker.getLabels, h1, h2]
 
 -- non-vacuity: concrete instances of the hypotheses
 example : run [49, 97, 46, 98] = [95, 49, 97, 95, 98] := by   -- "1a.b" ↦ "_1a_b"
